@@ -108,6 +108,43 @@ Theorem C06_good_peer_all_complete : forall (s : sink) (t : N) (x : task) (c : n
 Proof. exact acked_send_completes. Qed.
 Print Assumptions C06_good_peer_all_complete.
 
+(* a QoS 1 send whose PUBLISH the encoder refuses because it is larger than the maximum outbound packet size
+   (task kind 8; `Err(e) => Err(SendPacketError::Encode(e))` in wait_publish_response) reserves nothing: in the
+   operation in which the task ends with the Encode error -- it is started, created, or polled (also after having
+   been parked behind the send window and woken) -- the in-flight queue, the set of identifiers in use, the receipt
+   map, the waiter queue, the streaming waiter, the streaming state of the sink and of the codec are what they were
+   before the operation and nothing is written: the identifier is free for the next send *)
+Theorem C06_failed_publish_reserves_nothing : forall (s : sink) (o : op) (t : N) (x' : task),
+  (o = OPoll t \/ exists k idq size, o = OStart t k idq size \/ o = OCreate t k idq size) ->
+  find_task t (tasks (sink_op s o)) = Some x' -> tk x' = 8 ->
+  (tst x' = TDone ST_ENCODE \/ tst x' = TDeferred ST_ENCODE) ->
+  let s' := sink_op s o in
+  inflight s' = inflight s /\ ids s' = ids s /\ rxm s' = rxm s /\ waiters s' = waiters s /\ swait s' = swait s /\
+  srem s' = srem s /\ crem s' = crem s /\ wire s' = [].
+Proof. exact failed_publish_reserves_nothing. Qed.
+Print Assumptions C06_failed_publish_reserves_nothing.
+
+(* non-vacuity: a send with the explicit identifier 7 that cannot be encoded fails with the Encode error and leaves
+   nothing behind; the next send with the same identifier is written, acknowledged and completes; with automatic
+   identifiers the failed send has consumed one (set_publish_id runs before the encode); a failing sender that was
+   parked behind a full window and woken by an acknowledgement fails when it is polled and writes nothing *)
+Example C06_failed_publish_nonvacuous :
+  let s0 := sink_init 5 false 2 in
+  let s1 := run_from s0 [OStart 1 8 7 0] in
+  let s2 := run_from s1 [OStart 2 1 7 0] in
+  let s3 := run_from s2 [OAcks [(1, 7)]; OPoll 2] in
+  let a := run_from (sink_init 3 true 1) [OStart 1 8 0 0; OStart 2 1 0 0] in
+  let p1 := run_from (sink_init 3 false 1) [OStart 1 1 0 0; OStart 2 8 0 0; OAcks [(1, 1)]] in
+  let p2 := run_from p1 [OPoll 2] in
+  map (fun p => status_of (tst (snd p))) (tasks s1) = [ST_ENCODE] /\ inflight s1 = [] /\ ids s1 = [] /\ wire s1 = [] /\
+  map (fun p => status_of (tst (snd p))) (tasks s2) = [ST_ENCODE; ST_PENDING] /\ ids s2 = [7] /\ wire s2 = [W_PUB1; 7] /\
+  map (fun p => status_of (tst (snd p))) (tasks s3) = [ST_ENCODE; ST_OK] /\ inflight s3 = [] /\ ids s3 = [] /\ io s3 = 0 /\
+  map (fun p => status_of (tst (snd p))) (tasks a) = [ST_ENCODE; ST_PENDING] /\ ids a = [2] /\ wire a = [W_PUB1; 2] /\
+  map (fun p => status_of (tst (snd p))) (tasks p1) = [ST_PENDING; ST_PENDING] /\ lenN (waiters p1) = 0 /\
+  map (fun p => status_of (tst (snd p))) (tasks p2) = [ST_PENDING; ST_ENCODE] /\ inflight p2 = [] /\ ids p2 = [] /\
+  wire p2 = [] /\ idx p2 = 2.
+Proof. vm_compute. repeat split; reflexivity. Qed.
+
 (* non-vacuity: ids wrap 65535 -> 1, the in-order peer completes everything, an explicit id in use is refused and
    accepted again after its ack; a PUBACK for a QoS 2 send ends the connection *)
 Example C06_nonvacuous :
